@@ -439,6 +439,8 @@ class Command(Accessible):
             for key, pobj in self.propertyDict.items():
                 if key not in self.propertyValues:
                     self.propertyValues[key] = pobj.default
+                # own properties are the ones winning over inherited ones
+                self.ownProperties[key] = self.propertyValues[key]
 
     def __get__(self, obj, owner=None):
         if obj is None:
